@@ -6,7 +6,7 @@
    findings (`y`, `ww`) are modelled as the code has them. *)
 From Coq Require Import ZArith NArith List Bool String.
 From NP Require Import Gen.GenC14 Model.PyBase Model.DateFormat Model.Duration
-  Proofs.C14Gen Proofs.DateFormatP Proofs.DurationP.
+  Proofs.C14Gen Proofs.DateFormatP Proofs.DateFormatValP Proofs.DurationP.
 Import ListNotations.
 
 (* ---------------------------------------------------------------- directives *)
@@ -98,6 +98,19 @@ Theorem weekday_next_day : forall y m d, (1 <= m <= 12)%Z -> (1 <= d <= days_in_
 Proof. exact weekday_next_day. Qed.
 Print Assumptions weekday_next_day.
 
+(* civil_from_days (CPython's _ord2ymd) and days_from_civil (_ymd2ord) are mutually inverse on the proleptic
+   Gregorian calendar, for all years >= 1 (one 400-year cycle swept, then periodicity) *)
+Theorem civil_from_days_inverse : forall y m d, (1 <= y)%Z -> (1 <= m <= 12)%Z -> (1 <= d <= days_in_month y m)%Z ->
+  civil_from_days (days_from_civil y m d) = (y, m, d).
+Proof. exact civil_from_days_inverse_lemma. Qed.
+Print Assumptions civil_from_days_inverse.
+
+Theorem civil_from_days_sound : forall n, (1 <= n)%Z ->
+  let '(y, m, d) := civil_from_days n in
+  (1 <= y)%Z /\ (1 <= m <= 12)%Z /\ (1 <= d <= days_in_month y m)%Z /\ days_from_civil y m d = n.
+Proof. exact civil_from_days_sound. Qed.
+Print Assumptions civil_from_days_sound.
+
 (* the day-of-year table is the running sum of the month lengths *)
 Theorem day_of_year_is_sum_of_months : forall t, (1 <= month t <= 12)%Z -> py_day_of_year t = doc_day_of_year t.
 Proof. exact doy_ok. Qed.
@@ -123,6 +136,12 @@ Theorem quoted_passthrough : forall s t, s <> [] -> hd 0%N s <> c_quote ->
   decode_date_format (c_quote :: escape_quotes s ++ [c_quote]) t = s.
 Proof. exact quoted_passthrough_lemma. Qed.
 Print Assumptions quoted_passthrough.
+
+(* a format accepted by Formatting.__post_init__ never reaches an unsupported field when rendered (any string) *)
+Theorem validated_formats_render : forall fmt, validate_format fmt = true ->
+  unsupported (scan fmt false false []) = [].
+Proof. exact validated_formats_render_lemma. Qed.
+Print Assumptions validated_formats_render.
 
 (* the pinned scanner: '' directly after a directive is emitted before it *)
 Theorem pinned_doubled_quote_refuted :
@@ -162,6 +181,18 @@ Theorem duration_string_shows_parts : forall ms style largest smallest,
   readback (duration_format ms style largest smallest) = List.map snd (duration_parts ms largest smallest).
 Proof. exact readback_format. Qed.
 Print Assumptions duration_string_shows_parts.
+
+(* compact style: milliseconds always have three digits ("1:02.005"), minutes and seconds two unless alone *)
+Theorem compact_ms_three_digits : forall largest smallest v, (v < 1000)%N ->
+  show_part S_COMPACT largest smallest (U_MS, v) = zfill 3 (nstr v).
+Proof. exact compact_ms_three_digits_lemma. Qed.
+Print Assumptions compact_ms_three_digits.
+
+Theorem compact_two_digits : forall largest smallest u v, u = U_MINUTE \/ u = U_SECOND ->
+  ~ (largest = u /\ smallest = u) -> (v < 100)%N ->
+  show_part S_COMPACT largest smallest (u, v) = zfill 2 (nstr v).
+Proof. exact compact_two_digits_lemma. Qed.
+Print Assumptions compact_two_digits.
 
 (* automatic units: the largest unit not exceeding the duration, down to the coarsest unit dividing it *)
 Theorem auto_units_cover : forall ms L S, (0 < ms)%N -> is_unit S = true ->
